@@ -119,8 +119,13 @@ new.append(entry("C04",
 
 MSGTYPES = open(os.path.join(SPEC, "message_types.txt")).read().split()
 new.append(entry("C05",
-    functions=["messages.lemmaRoundTrip" + t for t in MSGTYPES] + ["messages.lemmaDecode" + t for t in MSGTYPES],
-    scope=[r"^messages\.lemma\w+#ensures:", r"^messages\.lemma\w+#requires:"],
+    functions=["messages.lemmaRoundTrip" + t for t in MSGTYPES] + ["messages.lemmaDecode" + t for t in MSGTYPES] +
+              ["types.lemmaRoundTrip" + t for t in ("Date", "DateTime", "HHmm", "PIN", "SerialNumber", "Version")] +
+              ["types.(%s).MarshalUT0311L0x" % t for t in ("Date", "DateTime", "SystemDate", "SystemTime", "HHmm", "PIN", "SerialNumber", "Version", "MacAddress")] +
+              ["types.(*%s).UnmarshalUT0311L0x" % t for t in ("Date", "DateTime", "SystemDate", "SystemTime", "HHmm", "PIN", "SerialNumber", "Version", "MacAddress")] +
+              ["encoding/bcd.Encode", "encoding/bcd.Decode"],
+    scope=[r"^messages\.lemma\w+#ensures:", r"^messages\.lemma\w+#requires:", r"^types\.lemmaRoundTrip\w+#", r"^types\.\(\*?\w+\)\.(Unm|M)arshalUT0311L0x#", r"^encoding/bcd\.(En|De)code#"],
+    scope_exclude=[r"^types\.\(\*(Date|SystemDate)\)\.UnmarshalUT0311L0x#ensures:civil$"],
     pinned_file="pins_messages.json", pinned_labels=["contract"],
     replay=[{"match": "messages.lemmaDecode", "driver": "messages_decode", "pkg": "messages", "case": "all"}],
     assumptions=COMMON_ASSUME + ["bcd.* and time.* spec functions are opaque in the message-level lemmas; the facts used about them are the spec lemmas bcd.pack.inv, bcd.val2.inv, bcd.zero and time.fields.range, proved from the definitions on every run"],
